@@ -15,6 +15,7 @@ def errTag : Err → String
   | .tsqlSyntaxError => "TSQLSyntaxError"
   | .indexError => "IndexError"
   | .valueError => "ValueError"
+  | .attributeError => "AttributeError"
   | .unmodelled => "unmodelled"
 
 def ofErrTag (s : String) : Except String Err :=
@@ -27,6 +28,7 @@ def ofErrTag (s : String) : Except String Err :=
   | "TSQLSyntaxError" => pure .tsqlSyntaxError
   | "IndexError" => pure .indexError
   | "ValueError" => pure .valueError
+  | "AttributeError" => pure .attributeError
   | _ => throw s!"bad error tag {s}"
 
 def ofField (j : Json) : Except String Field := do
@@ -197,7 +199,6 @@ def handleComposed (j : Json) : Except String (Option Json) := do
   match op with
   | "db" =>
     let src ← ofDirC (← j.getObjVal? "src")
-    if !Compose.composable src.schema schema then return none
     let cond ← match j.getObjVal? "cond" with
       | .ok Json.null => pure none
       | .error _ => pure none
@@ -205,13 +206,13 @@ def handleComposed (j : Json) : Except String (Option Json) := do
     let tbl ← match j.getObjVal? "rx" with
       | .ok v => ofRx v
       | .error _ => pure []
+    if !Compose.composable src.schema cond then return none
     let p : Compose.CParams := { schema := schema, cond := cond, full := ← getBool j "full", gzip := gzip,
                                  skeleton := skeleton }
     let r := Compose.mkprofDbC (rxOf tbl) MID src dst p
     if r.2 = some .unmodelled then return none
     pure (some (obsC watch r))
   | "refresh" =>
-    if !Compose.composable dst.schema schema then return none
     let r := Compose.mkprofRefreshC MID dst schema gzip skeleton
     if r.2 = some .unmodelled then return none
     pure (some (obsC watch r))
